@@ -187,7 +187,7 @@ def _exchange_chunk(job):
                     # one validator per case sees the same document with comments sprinkled in
                     # one validator per case sees the same document with comments sprinkled in; now and then the document
                     # is preceded by a long comment that puts a multi-byte character across the transport's block boundary
-                    noise = 'straddle' if (i + fi + vi) % 41 == 0 else 'comments' if (i + fi + vi) % 3 == 0 else None
+                    noise = 'straddle' if (i + fi + vi) % 41 == 0 else 'comments' if (i + fi + vi) % 3 == 0 else 'nilfalse' if (i + fi + vi) % 7 == 1 else None
                     obs = w.exchange(noise=noise)
                     if v == 'soft' and c['id'] != 'T9' and (not quick or (i + fi) % 4 == seed % 4):
                         cd = client_decode(w)
